@@ -318,7 +318,7 @@ def run_case(case):
         if status == "refused":
             labels.append("raised")
             viol = None
-            if exact.feasible([_tight(allc)]):
+            if exact.feasible([_tight(allc)], None, exact.BOX):
                 viol = {"what": "simplify raised %s for a feasible system" % type(res).__name__,
                         "sig": {"kind": "raised-on-feasible", "numclass": case["numclass"], "ill_conditioned": ill_conditioned(allc)}, "detail": {"message": str(res)[:200]}}
             return {"viol": viol, "nontrivial": bool(case["planted"]), "labels": labels, "outcome": "raised"}
@@ -337,7 +337,7 @@ def run_case(case):
                 obj = r2
     if status == "refused":
         viol = None
-        if exact.feasible([_tight(c["a"] + c["g"])]):
+        if exact.feasible([_tight(c["a"] + c["g"])], None, exact.BOX):
             viol = {"what": "contract construction/simplify raised %s for a satisfiable contract" % type(obj).__name__,
                     "sig": {"kind": "raised-on-feasible", "numclass": "small"}, "detail": {"message": str(obj)[:200]}}
         return {"viol": viol, "nontrivial": False, "labels": labels + ["raised"], "outcome": "raised"}
